@@ -1422,14 +1422,35 @@ def remove_redundant_else(source: str) -> str:
         ranges = [core.get_charnos(child, source) for child in node.orelse]
         start = min((s for (s, _) in ranges))
         end = max((e for (_, e) in ranges))
-        last_else = list(re.finditer("(?<![^\\n]) *else: *\\n?", source[:start]))[-1]
-        indent = len(re.findall("^ *", last_else.group())[0])
-        modified_orelse = " " * indent + re.sub("(?<![^\\n])    ", "", source[start:end]).lstrip()
 
-        pre_else = source[: last_else.start()]
+        # The else keyword stands between the body and the else block; nothing else but blanks
+        # and comments does.
+        body_end = max(core.get_charnos(child, source).end for child in node.body)
+        else_match = next(
+            (
+                m
+                for m in re.finditer(r"#[^\r\n]*|\belse\b[ \t\f]*:", source[body_end:start])
+                if not m.group().startswith("#")
+            ),
+            None,
+        )
+        if else_match is None:
+            continue
+
+        else_start = body_end + else_match.start()
+        line_start = max(source.rfind("\n", 0, else_start), source.rfind("\r", 0, else_start)) + 1
+        indent = source[line_start:else_start]
+        if indent.strip():
+            continue
+
+        modified_orelse = _reindent_block(
+            source, start, end, indent, _string_continuation_linenos(root)
+        )
+
+        pre_else = source[:line_start]
         start_offset = len(pre_else) - len(pre_else.rstrip())
 
-        yield core.Range(last_else.start() - start_offset, end), "\n\n" + modified_orelse
+        yield core.Range(line_start - start_offset, end), "\n\n" + modified_orelse
 
 
 @processing.fix
